@@ -575,7 +575,7 @@ func (s *sim) runChain(sp scanSpec, w *world, tables, collKeys []string, interf 
 	}
 	ctx := "iteration " + sp.String()
 	nul := strings.Contains(sp.start, "\x00")
-	for _, m := range []map[string]bool{initial, added} {
+	for _, m := range []map[string]bool{initial, added, deleted, s.scope(sp, w)} {
 		for e := range m {
 			if strings.Contains(e, "\x00") {
 				nul = true
